@@ -209,17 +209,17 @@ def _interleaved_concrete(sched, mxa, a_ct, a_tsf, b_aborts, b_ct, b_mr):
 @cond(bounds='two associations on one entity: each with its own requested maximum length (A: 7 / 16384 / 2^32-1 by symbolic choice, B: 4096), '
              'accepted-context subset (CT / MR storage proposed or not: symbolic), transfer-syntax order (symbolic), '
              'own message ids and payload; B may abort after its first message '
-             '(symbolic); their steps are interleaved by a schedule word of 8 bits (one instance per word: 3 quick / 8 thorough)',
+             '(symbolic); their steps are interleaved by a schedule word of 8 bits (quick: one instance per word, 3 words; thorough: the word is symbolic over all 256 values)',
       family=lambda t: [dict(b_ct=b[0], b_mr=b[1], sched=s_)
                         for b in (((0, 0), (1, 0), (1, 1)) if t == 'thorough' else ((1, 0), (1, 1)))
-                        for s_ in (SCHEDULES if t == 'thorough' else (SCHEDULES[2], SCHEDULES[5], SCHEDULES[7]))],
-      timeout=300, thorough_timeout=1200)
-def interleaved(mxi: int, a_ct: bool, a_tsf: bool, b_aborts: bool) -> bool:
+                        for s_ in ((None,) if t == 'thorough' else (SCHEDULES[2], SCHEDULES[5], SCHEDULES[7]))],
+      timeout=300, thorough_timeout=1800)
+def interleaved(mxi: int, a_ct: bool, a_tsf: bool, b_aborts: bool, sw: int) -> bool:
     """
-    pre: 0 <= mxi <= 2
+    pre: 0 <= mxi <= 2 and 0 <= sw <= 255 and (fam('sched') is None or sw == 0)
     post: _
     """
-    sched = fam('sched')
+    sched = fam('sched') if fam('sched') is not None else pick(sw, 0, 255)
     mxa = (7, 16384, 0xFFFFFFFF)[pick(mxi, 0, 2)]
     a_ct, a_tsf, b_aborts = bool(pick(int(a_ct), 0, 1)), bool(pick(int(a_tsf), 0, 1)), bool(pick(int(b_aborts), 0, 1))
     from vt import sim
@@ -349,19 +349,19 @@ def _live_run(pa_, pb_, sched, dt):
              'machine, DIMSE decoder, ARTIM timer) stepped in the calling thread; both negotiate CT storage on context '
              'id 3 but with different transfer syntaxes (A: symbolic order, B: the other one) and file-backed '
              'reception; echo, store, echo on each; B ends normally / with an unrecognised PDU and a connection left '
-             'open / with an abort / by disconnecting (symbolic); steps interleaved by an 8-bit schedule word (one '
-             'instance per word); then the clock advances by a SYMBOLIC dt in 0..30 s and A serves one more C-ECHO. '
+             'open / with an abort / by disconnecting (symbolic); steps interleaved by an 8-bit schedule word (quick: 4 words, one '
+             'instance each; thorough: all 256 words, low 4 bits symbolic per instance); then the clock advances by a SYMBOLIC dt in 0..30 s and A serves one more C-ECHO. '
              'Every association must put on the wire, hand to the handler (incl. the file meta header) and keep as '
              'state exactly what it does when it runs alone',
-      family=lambda t: [dict(sched=s_) for s_ in (SCHEDULES if t == 'thorough' else
+      family=lambda t: [dict(sched=s_) for s_ in (tuple(range(0, 256, 16)) if t == 'thorough' else
                                                   (SCHEDULES[2], SCHEDULES[4], SCHEDULES[6], SCHEDULES[7]))],
-      timeout=300, thorough_timeout=1200)
-def interleaved_live(a_tsf: bool, ending: int, dt: int) -> bool:
+      timeout=300, thorough_timeout=1800)
+def interleaved_live(a_tsf: bool, ending: int, dt: int, sw: int) -> bool:
     """
-    pre: 0 <= ending <= 3 and 0 <= dt <= 30
+    pre: 0 <= ending <= 3 and 0 <= dt <= 30 and 0 <= sw <= 15 and (tier() == 'thorough' or sw == 0)
     post: _
     """
-    sched = fam('sched')
+    sched = fam('sched') + (pick(sw, 0, 15) if tier() == 'thorough' else 0)
     ending = pick(ending, 0, 3)
     a_tsf = bool(pick(int(a_tsf), 0, 1))
     pa_ = ('CLIENT_A', 16384, 1 if a_tsf else 0, 100, b'\x11\x12\x13\x14', 0)
@@ -536,6 +536,7 @@ def explain(cname, args, famv):
     if cname != 'interleaved_live':
         return 'each association must behave exactly as when it runs alone on a fresh entity'
     a_tsf, ending, dt = args['a_tsf'], args['ending'], args['dt']
+    famv = dict(famv, sched=famv['sched'] + args.get('sw', 0))
     pa_ = ('CLIENT_A', 16384, 1 if a_tsf else 0, 100, b'\x11\x12\x13\x14', 0)
     pb_ = ('CLIENT_B', 4096, 0 if a_tsf else 1, 200, b'\x26\x27', ending)
     alone_a, _, log_a = _live_run(pa_, None, 0, dt)
